@@ -370,6 +370,57 @@ impl Session {
         self.post_recv(rx_header)
     }
 
+    /// Verification hook: put an exchange slot into a given state (`None` frees it).
+    /// `slot` = (exchange id, 'I'/'R', 'o'/'d'/'p', pending retransmission counter,
+    /// acknowledgement entry (counter, acknowledged)); the vector grows as needed.
+    #[cfg(rs_matter_verif)]
+    #[allow(clippy::type_complexity)]
+    pub fn verif_set_exchange(
+        &mut self,
+        index: usize,
+        slot: Option<(u16, char, char, Option<u32>, Option<(u32, bool)>)>,
+    ) {
+        use super::exchange::{InitiatorState, ResponderState};
+
+        while self.exchanges.len() <= index {
+            if self.exchanges.push(None).is_err() {
+                return;
+            }
+        }
+
+        self.exchanges[index] = slot.map(|(exch_id, role, state, retrans, ack)| {
+            let role = match (role, state) {
+                ('I', 'd') => Role::Initiator(InitiatorState::Dropped),
+                ('I', _) => Role::Initiator(InitiatorState::Owned),
+                (_, 'd') => Role::Responder(ResponderState::Dropped),
+                (_, 'o') => Role::Responder(ResponderState::Owned),
+                _ => Role::Responder(ResponderState::AcceptPending),
+            };
+
+            let mut mrp = ReliableMessage::new();
+            mrp.retrans = retrans.map(|ctr| RetransEntry::new(None, ctr));
+            mrp.ack = ack.map(|(msg_ctr, acknowledged)| {
+                let mut entry = unwrap!(super::mrp::AckEntry::new(msg_ctr));
+                entry.acknowledged = acknowledged;
+                entry
+            });
+
+            ExchangeState {
+                exch_id,
+                role,
+                mrp,
+                #[cfg(feature = "groups")]
+                group_data_ctr: None,
+            }
+        });
+    }
+
+    /// Verification hook: the `expired` flag.
+    #[cfg(rs_matter_verif)]
+    pub fn verif_set_expired(&mut self, expired: bool) {
+        self.expired = expired;
+    }
+
     /// Get the internal ID of the session
     /// This ID is guaranteed to be unique across all sessions
     pub const fn id(&self) -> u32 {
